@@ -205,7 +205,7 @@ def run(prog, rep):
     rep.expect_min("C01.beta", 2)
     rep.expect_min("C01.sphere", 4)
     rep.expect_min("C01.chain", 9)
-    rep.expect_min("C01.tm", 2)
+    rep.expect_min("C01.tm", 3)
     rep.expect_min("C01.result", 4)
     rep.expect_min("C01.nsphere", 7)
     from .purity import row as _stateless_row
@@ -245,6 +245,16 @@ def tm_rule(prog, rep, fn, b, pmat):
                 if g != want:
                     probs.append(f"given must be all other columns of the matrix being filled: {show(want)[:90]}; found {show(g)[:90] if g else None}")
                 rep.check(not probs, "C01.tm", f"{q}:tm:conditional", site, "coordinates[:, i] = model.conditional_icdf(p[:, i], i, coordinates[:, arange(n_dim) != i])", "; ".join(probs))
+                # at step i only the columns 0..i-1 of the (np.empty) matrix have been written: 'all other columns' also reads the columns
+                # i+1.. that are still uninitialised, unless the model has exactly two variables
+                from vstat.guards import path_conditions as _pcs, exception_name as _exc
+                pc_ = _pcs(prog, fn, b)
+                two_only = any(isinstance(st_, ast.Raise) and any(l_ in (("not", CMP("==", nd, ("const", 2))), CMP(">", nd, ("const", 2))) for l_ in pc_.of(st_))
+                               for st_ in cfg_of(fn).all_stmts())
+                earlier_only = g is not None and g[0] == "col" and g[1] == s.base and g[2] == ("slice", NONE, s.K, NONE)
+                rep.check(two_only or earlier_only, "C01.tm", f"{q}:tm:initialised", site, "the conditioning columns read at step i were all written before",
+                          "the conditioning values are 'all other columns' of a matrix allocated with np.empty: for more than two variables step i also reads the "
+                          "columns i+1.., which have not been computed yet (uninitialised memory), and nothing restricts the TransformedModel branch to two variables")
     for k, v in found.items():
         if not v:
             rep.fail("C01.tm", f"{q}:tm:{k}:missing", fn.where(), f"TransformedModel branch has no {k} icdf store")
